@@ -888,6 +888,14 @@ func (fc *FnCtx) evalCall(env *Env, e *Expr) (Val, error) {
 			return x, nil
 		}
 		return Val{}, fmt.Errorf("unknown type %s", e.Args[1].Name)
+	case "isNotFound", "isConflict", "isAlreadyExists":
+		// the k8s error predicates of errors.IsNotFound etc. (same uninterpreted predicates as the trusted rules)
+		x, err := fc.eval(env, e.Args[0])
+		if err != nil {
+			return Val{}, err
+		}
+		f := fc.q.declareFun("errpred_I"+e.Name[1:], []string{sIface}, sBool)
+		return Val{T: and(not(eq("(itag "+x.T+")", "0")), app(f, x.T)), Typ: boolT}, nil
 	case "isNil":
 		x, err := fc.eval(env, e.Args[0])
 		if err != nil {
